@@ -96,7 +96,7 @@ def spell(d: gen.D, s: str, form: str) -> tuple[str, bool]:
 @st.composite
 def _case(draw):
     d = gen.D(draw)
-    k = d.i(0, 9)
+    k = d.i(0, 10)
     cfg = d.pick([C.simple("commonmark"), C.simple("js-default"), C.simple("commonmark", html=False), C.simple("js-default", html=True), C.simple("js-default", linkify=True), C.simple("commonmark", linkify=True, typographer=True)])
     cfg = gen.maybe_late(d, cfg)
     if d.chance(0.15):
@@ -120,7 +120,7 @@ def _case(draw):
             if form == "angle":
                 raw = "<" + raw + ">"
             part = tpl.replace("{u}", raw)
-            if j:
+            if j and d.chance(0.65):  # otherwise the later definitions repeat the labels of the earlier ones
                 part = part.replace("[r]", f"[r{j}]").replace("[a]:", f"[a{j}]:").replace("[a]\n", f"[a{j}]\n")
             parts.append(part)
             sems.append(sem)
@@ -133,7 +133,7 @@ def _case(draw):
     if k == 7:
         src = "<" + d.pick(EMAIL_LOCALS) + d.pick(["", d.pick(EMAIL_LOCALS)]) + "@" + d.pick(["example.com", "b.c", "xn--n3h.net", "a-b.c", "B.C"]) + ">"
         return {"kind": "email", "src": src, "cfg": cfg, "sem": "mailto:", "nonraw": False}
-    if k == 7 and d.chance(0.5):
+    if k == 10:
         # several URL-ish words in one text node, with the linkifier on: accepted and rejected matches side by side
         words = []
         for _ in range(d.i(2, 5)):
